@@ -24,6 +24,7 @@ pub fn s1_chain() -> Scenario
         tamper: sv(&["m", "t"]),
         ops: OpKinds::all(),
         nondeterministic: false,
+        flat_variants: vec![],
     }
 }
 
@@ -43,6 +44,7 @@ pub fn s2_diamond() -> Scenario
         tamper: sv(&["l", "top"]),
         ops: OpKinds::all(),
         nondeterministic: false,
+        flat_variants: vec![],
     }
 }
 
@@ -62,6 +64,7 @@ pub fn s3_multi() -> Scenario
         tamper: sv(&["t2", "c2"]),
         ops: OpKinds::all(),
         nondeterministic: false,
+        flat_variants: vec![],
     }
 }
 
@@ -80,6 +83,7 @@ pub fn s3_c18() -> Scenario
         tamper: vec![],
         ops: OpKinds::basic(),
         nondeterministic: false,
+        flat_variants: vec![],
     }
 }
 
@@ -95,6 +99,7 @@ pub fn s4_twins() -> Scenario
         tamper: sv(&["a", "b"]),
         ops: OpKinds::all(),
         nondeterministic: false,
+        flat_variants: vec![],
     }
 }
 
@@ -109,6 +114,7 @@ pub fn s4_c18() -> Scenario
         tamper: vec![],
         ops: OpKinds::basic(),
         nondeterministic: false,
+        flat_variants: vec![],
     }
 }
 
@@ -133,6 +139,7 @@ pub fn s5_variants() -> Scenario
         tamper: sv(&["t"]),
         ops: OpKinds { edit: true, build: true, clean: true, rules: true, tamper: true, delete: true, ..Default::default() },
         nondeterministic: false,
+        flat_variants: vec![],
     }
 }
 
@@ -149,6 +156,7 @@ pub fn s6_exec() -> Scenario
         tamper: sv(&["x"]),
         ops: OpKinds { edit: true, build: true, clean: true, tamper: true, delete: true, drop_cache: true, rm_table: true, ..Default::default() },
         nondeterministic: false,
+        flat_variants: vec![],
     }
 }
 
@@ -172,6 +180,30 @@ pub fn s7_undeclared(mask: u8) -> Scenario
         tamper: sv(&["t1", "t2"]),
         ops: OpKinds { edit: true, build: true, tamper: true, delete: true, drop_cache: true, rm_cache: true, ..Default::default() },
         nondeterministic: true,
+        flat_variants: vec![],
+    }
+}
+
+/// S7 with three targets: `mask` says which of t1,t2,t3 depend on the undeclared input
+pub fn s7_undeclared3(mask: u8) -> Scenario
+{
+    let part = |bit: u8| -> Vec<&'static str> { if mask & bit != 0 { vec!["s", "u"] } else { vec!["s"] } };
+    let a = RuleSpec
+    {
+        targets: sv(&["t1", "t2", "t3"]),
+        sources: sv(&["s"]),
+        lines: vec![Line::Cat { inputs: sv(&part(1)), out: s("t1") }, Line::Cat { inputs: sv(&part(2)), out: s("t2") }, Line::Cat { inputs: sv(&part(4)), out: s("t3") }],
+    };
+    Scenario
+    {
+        name: format!("S7-undeclared3-{}", mask),
+        variants: vec![vec![a, cat_rule("b", &["s2"])]],
+        edits: vec![(s("s"), xy()), (s("u"), xy()), (s("s2"), xy())],
+        goals: vec![None],
+        tamper: sv(&["t1", "t3"]),
+        ops: OpKinds { edit: true, build: true, tamper: true, delete: true, rm_cache: true, ..Default::default() },
+        nondeterministic: true,
+        flat_variants: vec![],
     }
 }
 
@@ -212,6 +244,7 @@ pub fn s8_failures() -> Scenario
         tamper: vec![],
         ops: OpKinds { edit: true, build: true, clean: true, rules: true, rm_leaf: true, ..Default::default() },
         nondeterministic: false,
+        flat_variants: vec![],
     }
 }
 
@@ -232,6 +265,7 @@ pub fn s9_scope() -> Scenario
         tamper: sv(&["a", "z"]),
         ops: OpKinds { edit: true, build: true, clean: true, tamper: true, delete: true, ..Default::default() },
         nondeterministic: false,
+        flat_variants: vec![],
     }
 }
 
@@ -250,12 +284,13 @@ pub fn s10_bundle() -> Scenario
     Scenario
     {
         name: "S10-bundle".into(),
-        variants: vec![vec![gen, cat_rule("p", &["gen/data"]), cat_rule("d", &["p", "s3"]), cat_rule("q", &["gen.log"])]],
+        variants: { let v = vec![gen, cat_rule("p", &["gen/data"]), cat_rule("d", &["p", "s3"]), cat_rule("q", &["gen.log"])]; vec![v.clone(), v] },
         edits: vec![(s("s1"), xy()), (s("s2"), xy()), (s("s3"), xy()), (s("gen/.keep"), vec![bytes("")])],
         goals: g(&["d", "q"]),
         tamper: sv(&["gen.log"]),
-        ops: OpKinds { edit: true, build: true, clean: true, tamper: true, delete: true, ..Default::default() },
+        ops: OpKinds { edit: true, build: true, clean: true, tamper: true, delete: true, rules: true, ..Default::default() },
         nondeterministic: false,
+        flat_variants: vec![1],
     }
 }
 
@@ -274,6 +309,7 @@ pub fn s11_three() -> Scenario
         tamper: sv(&["b", "c"]),
         ops: OpKinds { edit: true, build: true, clean: true, tamper: true, delete: true, drop_cache: true, ..Default::default() },
         nondeterministic: false,
+        flat_variants: vec![],
     }
 }
 
@@ -283,20 +319,22 @@ pub fn s12_multiline_failure() -> Scenario
 {
     let bad = RuleSpec { targets: sv(&["f"]), sources: sv(&["s"]), lines: vec![Line::False(s("f")), Line::Cat { inputs: sv(&["s"]), out: s("f") }] };
     let bad2 = RuleSpec { targets: sv(&["h"]), sources: sv(&["s2"]), lines: vec![Line::Cat { inputs: sv(&["s2"]), out: s("h") }, Line::False(s("h")), Line::True(s("h"))] };
+    let killed = RuleSpec { targets: sv(&["k"]), sources: sv(&["s2"]), lines: vec![Line::Cat { inputs: sv(&["s2"]), out: s("k") }, Line::Kill(s("k"))] };
     let good = cat_rule("f", &["s"]);
     let good2 = cat_rule("h", &["s2"]);
     Scenario
     {
         name: "S12-multiline-failure".into(),
         variants: vec![
-            vec![bad.clone(), cat_rule("df", &["f"]), cat_rule("g", &["s"]), bad2.clone(), cat_rule("dh", &["h"])],
-            vec![good, cat_rule("df", &["f"]), cat_rule("g", &["s"]), good2, cat_rule("dh", &["h"])],
+            vec![bad.clone(), cat_rule("df", &["f"]), cat_rule("g", &["s"]), bad2.clone(), cat_rule("dh", &["h"]), killed, cat_rule("dk", &["k"])],
+            vec![good, cat_rule("df", &["f"]), cat_rule("g", &["s"]), good2, cat_rule("dh", &["h"]), cat_rule("k", &["s2"]), cat_rule("dk", &["k"])],
         ],
         edits: vec![(s("s"), xy()), (s("s2"), xy())],
         goals: g(&["df", "g"]),
         tamper: vec![],
         ops: OpKinds { edit: true, build: true, clean: true, rules: true, ..Default::default() },
         nondeterministic: false,
+        flat_variants: vec![],
     }
 }
 
@@ -313,6 +351,7 @@ pub fn s13_binary() -> Scenario
         tamper: vec![],
         ops: OpKinds { edit: true, build: true, clean: true, ..Default::default() },
         nondeterministic: false,
+        flat_variants: vec![],
     }
 }
 
@@ -326,5 +365,6 @@ pub fn all_scenarios() -> Vec<Scenario>
 {
     let mut v = vec![s1_chain(), s2_diamond(), s3_multi(), s3_c18(), s4_twins(), s4_c18(), s5_variants(), s6_exec(), s8_failures(), s9_scope(), s10_bundle(), s11_three(), s12_multiline_failure(), s13_binary()];
     for m in 0..4 { v.push(s7_undeclared(m)); }
+    for m in 0..8 { v.push(s7_undeclared3(m)); }
     v
 }
